@@ -124,6 +124,7 @@ def _rules_table():
         2: dict(edge_whitelist={Vertex: {Vertex: DirectedEdge}}, multipath=False, multiverse=True),
         3: dict(edge_whitelist={Vertex: {Vertex: DirectedEdge, Universe: UnDirectedEdge}, Universe: {}},
                 mixed_links=True, cycles=True, multipath=True, multiverse=True),
+        4: dict(edge_whitelist={}, cycles=False),      # an EMPTY table: "nothing allowed" (the caller may fill ITS dict later)
     }
 
 
